@@ -26,6 +26,7 @@
 #include <pthread.h>
 #include <signal.h>
 #include <time.h>
+#include <sys/resource.h>
 
 #define FMOD 30011
 #define MAXP 8
@@ -404,6 +405,10 @@ int main(int argc, char **argv)
     FILE *rf;
 
     noise_seed = atoi(arg_of(argc, argv, "noise", "0"));
+    {   /* safety net: a taskpool that generates tasks without end must not eat the machine */
+        struct rlimit rl = { 8UL << 30, 8UL << 30 };
+        setrlimit(RLIMIT_AS, &rl);
+    }
     vt_init(60000);
     if( vt_open(out) < 0 ) { perror(out); return 2; }
     if( NULL == runsf || NULL == (rf = fopen(runsf, "r")) ) { fprintf(stderr, "runs file?\n"); return 2; }
@@ -485,6 +490,12 @@ int main(int argc, char **argv)
             }
         }
         vt_dump();
+        {   /* a taskpool that runs away keeps creating tasks: stop the process now (exit code 5), the caller re-runs
+             * the remaining taskpools in a new process */
+            int away = 0;
+            for( int i = first; i < last; i++ ) away += runs[i]->runaway;
+            if( away ) { vt_close(); _exit(5); }
+        }
     }
     if( hung ) {            /* the context still holds taskpools that will never complete */
         vt_close();
